@@ -61,8 +61,11 @@ class H(S.Hooks):
     def start(self, live, stats):
         self.handles = []   # (obj, path, kind, name, derived)
         self.k = 0
+        self.objrefs = False
 
     def before(self, live, ops, k, op, stats):
+        if op[0] == "set_ref" and isinstance(op[3], (list, tuple)):
+            self.objrefs = True     # orphaned evaluation through a dangling reference is a recorded finding
         # take handles now and then (deterministic: every third operation)
         self.k += 1
         if self.k % 3 == 0 and len(self.handles) < 24:
@@ -79,10 +82,17 @@ class H(S.Hooks):
         hist = S.hist_json(ops, k)
         m = live.m
         alive_impls = set()
-        for path, s in W.all_spaces(m):
-            alive_impls.add(id(s._impl))
-            for c in s.cells.values():
-                alive_impls.add(id(c._impl))
+
+        def add_tree(impl):
+            alive_impls.add(id(impl))
+            for c in impl.cells.values():
+                alive_impls.add(id(c))
+            for it in impl.param_spaces.values():
+                add_tree(it)
+            for ch in impl.named_spaces.values():
+                add_tree(ch)
+        for sp in m._impl.spaces.values():
+            add_tree(sp)
         for (h, path, kind, name, derived) in list(self.handles):
             cur = resolve(m, path, kind, name)
             stats["handle_checks"] += 1
@@ -121,8 +131,9 @@ class H(S.Hooks):
             self.handles = [x for x in self.handles if x[0] is not h]
         # the dependency graph mentions no dead object
         for node in m._impl.tracegraph.nodes:
-            if id(node[0]) not in alive_impls and not getattr(node[0], "is_dynamic", lambda: False)():
-                out.fail("the dependency graph still has a node of a deleted object (%r)" % (node[0].name,), hist)
+            if id(node[0]) not in alive_impls:
+                out.fail("the dependency graph still has a node of a deleted object (%r)" % (node[0].name,), hist,
+                         key="C13-deleted-object-in-formula-globals" if self.objrefs else None)
                 break
 
     def end(self, live, ops, out, stats):
@@ -137,14 +148,14 @@ class H(S.Hooks):
             if w is not None and w != v and "Deep" not in v + w:
                 out.fail("%s returns %s but a model to which only the edits were applied returns %s "
                          "(a value computed from a deleted object survived?)" % (q, v, w), S.hist_json(ops),
-                         key=_known(live, q, v))
+                         key=_known(live, q, v, w))
                 break
 
 
-def _known(live, q, v):
+def _known(live, q, v, w=None):
     from . import c02
     p, rest = q.rsplit(".", 1)
-    k = c02.classify(False, live, (p, rest.split("(")[0]), v)
+    k = c02.classify(False, live, (p, rest.split("(")[0]), v, w)
     return "C13-" + k[4:] if k else None
 
 
